@@ -116,6 +116,10 @@ def run_side(ctx, exe, cases, tag, extra_args=(), timeout=1200, env=None):
     outs, crashes = {}, {}
     pending = list(cases)
     rounds = 0
+    timeouts = 0
+    if ctx.tier == "quick":
+        # the quick tier normally needs well under a minute per side; a changed tree that hangs must not stall the check
+        timeout = min(timeout, int(getattr(ctx.p, "QUICK_TIMEOUT", 420)))
     while pending:
         rounds += 1
         path = os.path.join(ctx.work, "%s_in_%d.txt" % (tag, rounds))
@@ -157,6 +161,13 @@ def run_side(ctx, exe, cases, tag, extra_args=(), timeout=1200, env=None):
             kind = "uncaught-exception"
         crashes[culprit.id] = {"rc": rc, "stderr": se[-3000:], "kind": kind}
         pending = rest[1:]
+        if kind == "timeout":
+            timeouts += 1
+            timeout = max(60, timeout // 2)
+            if timeouts >= 3:
+                for c in pending:
+                    crashes[c.id] = {"rc": rc, "stderr": "not run: three cases before it did not terminate", "kind": "skipped"}
+                break
         if rounds > 200:
             for c in pending:
                 crashes[c.id] = {"rc": rc, "stderr": "too many crashes", "kind": "skipped"}
@@ -190,6 +201,8 @@ def standard_cases(ctx, cases):
     """Build, run implementation and model on the cases, compare, evaluate the property on the implementation."""
     p = ctx.p
     variants = p.VARIANTS.get(ctx.tier, ["O1"]) if hasattr(p, "VARIANTS") else [getattr(p, "VARIANT", "O1")]
+    if os.environ.get("VERIF_VARIANT_OVERRIDE"):          # development only (tools/coverage.sh)
+        variants = [os.environ["VERIF_VARIANT_OVERRIDE"]]
     drv = None
     if getattr(p, "DRIVER", None):
         try:
